@@ -101,7 +101,7 @@ func (w *Worker) RunPath(entry *ssa.Function, prefix []Decision, pinned []string
 
 func (w *Worker) RunPathSeeded(entry *ssa.Function, prefix []Decision, pinned []string, seeded bool, seed uint64) (res *PathResult) {
 	res = &PathResult{}
-	p := &Path{w: w, prefix: prefix, res: res, pinned: pinned, mapOrderNondet: w.cfg.MapOrderNondet, seeded: seeded, rng: seed}
+	p := &Path{w: w, prefix: prefix, res: res, pinned: pinned, mapOrderNondet: w.cfg.MapOrderNondet, seeded: seeded, rng: seed, preemptBound: 2}
 	w.path = p
 	w.resetDirty()
 	w.solver.Push()
